@@ -62,6 +62,10 @@ const TARGETS: &[Target] = &[
     Target { name: "ub_from_str", file: "src/bounds/userbounds.rs", impl_trait: Some("FromStr"), impl_self: Some("UserBounds"),
              func: "from_str", calls: &[("Side::from_str", "gen_side_from_str"), ("UserBounds::new", "gen_ub_new")], deps: &["side_from_str", "ub_new"],
              imports: "Model.BoundsParse Tie.RsStr" },
+    Target { name: "ubl_unpack", file: "src/bounds/userboundslist.rs", impl_trait: None, impl_self: Some("UserBoundsList"),
+             func: "unpack", calls: &[("unpack", "gen_ub_unpack"), ("into", "model_from_vec")], deps: &["ub_unpack"], imports: "Tie.RsList" },
+    Target { name: "ubl_complement", file: "src/bounds/userboundslist.rs", impl_trait: None, impl_self: Some("UserBoundsList"),
+             func: "complement", calls: &[("complement", "gen_ub_complement"), ("into", "model_from_vec")], deps: &["ub_complement"], imports: "Tie.RsList" },
     Target { name: "fast_try_from", file: "src/fast_lane.rs", impl_trait: Some("TryFrom"), impl_self: Some("FastOpt"),
              func: "try_from", calls: &[], deps: &[], imports: "Model.Scan Model.Regex Model.Opt Tie.RsOpt" },
     Target { name: "stream_try_from", file: "src/stream.rs", impl_trait: Some("TryFrom"), impl_self: Some("StreamOpt"),
@@ -409,6 +413,21 @@ impl Cx {
                     let mut xs = vec![];
                     for a in &elems { match self.pure(a)? { Some(x) => xs.push(x), None => return Ok(None) } }
                     format!("[{}]", xs.join("; "))
+                } else if name == "matches" {
+                    let (e, pt) = m.mac.parse_body_with(|input: parse::ParseStream| {
+                        let e: Expr = input.parse()?;
+                        input.parse::<Token![,]>()?;
+                        let p = Pat::parse_multi_with_leading_vert(input)?;
+                        if !input.is_empty() { return Err(input.error("matches! with a guard")); }
+                        Ok((e, p))
+                    }).map_err(|e| format!("matches!: {}", e))?;
+                    let ev = match self.pure(&e)? { Some(v) => v, None => return Err("matches! on an effectful expression".into()) };
+                    let mark = self.env.len();
+                    self.tuple_hint = vec![];
+                    let hint = self.ty(&e);
+                    let (ps, irr) = self.pat(&pt, hint)?;
+                    self.env.truncate(mark);
+                    if irr { "true".to_string() } else { format!("(match {} with {} => true | _ => false end)", ev, ps) }
                 } else { return Ok(None); }
             }
             Expr::If(_) | Expr::Match(_) | Expr::Block(_) | Expr::Return(_) | Expr::Try(_) | Expr::Assign(_) | Expr::ForLoop(_) | Expr::Closure(_) | Expr::Index(_) => return Ok(None),
@@ -631,9 +650,9 @@ impl Cx {
                 self.tuple_hint = vec![];
                 let (p, irr) = self.pat(&f.pat, elem_ty)?;
                 if !irr { return Err("refutable loop pattern".into()); }
-                self.retk_stack.push("(fun x => Ret (Break x))".into());
+                let saved_ret_ty = std::mem::replace(&mut self.ret_ty, "_".to_string()); self.retk_stack.push("(fun x => Ret (Break x))".into());
                 let body = self.stmts(&f.body.stmts, &format!("(fun _ => Ret (Next {}))", st_tup));
-                self.retk_stack.pop();
+                self.retk_stack.pop(); self.ret_ty = saved_ret_ty;
                 self.env.truncate(mark); self.muts.truncate(mmark);
                 let body = body?;
                 let (src, r, v) = (self.fresh("a"), self.fresh("r"), self.fresh("v"));
@@ -653,14 +672,14 @@ impl Cx {
                 let src = self.fresh("a");
                 let res = if which == "for_each" {
                     // the closure may assign to the captured `let mut`s: they are the fold's state
-                    self.retk_stack.push(format!("(fun _ => Ret {})", st_tup));
+                    let saved_ret_ty = std::mem::replace(&mut self.ret_ty, "_".to_string()); self.retk_stack.push(format!("(fun _ => Ret {})", st_tup));
                     let body = self.tr(&clo.body, &format!("(fun _ => Ret {})", st_tup));
-                    self.retk_stack.pop();
+                    self.retk_stack.pop(); self.ret_ty = saved_ret_ty;
                     format!("(fun {} => (bind (foldM (fun {} {} => {}) (to_list {}) {}) (fun {} => ({} tt))))", src, st_pat, p, body?, src, st_tup, st_pat, k)
                 } else {
-                    self.retk_stack.push("(fun x => Ret x)".into());
+                    let saved_ret_ty = std::mem::replace(&mut self.ret_ty, "_".to_string()); self.retk_stack.push("(fun x => Ret x)".into());
                     let body = self.tr(&clo.body, "(fun x => Ret x)");
-                    self.retk_stack.pop();
+                    self.retk_stack.pop(); self.ret_ty = saved_ret_ty;
                     let f = if which == "any" { "anyM" } else { "flat_mapM" };
                     format!("(fun {} => (bind ({} (fun {} => {}) (to_list {})) {}))", src, f, p, body?, src, k)
                 };
@@ -716,9 +735,9 @@ impl Cx {
                 self.tuple_hint = vec![];
                 let (p, irr) = self.pat(&clo.inputs[0], inner)?;
                 if !irr { return Err("refutable closure parameter".into()); }
-                self.retk_stack.push("(fun x => Ret x)".into());
+                let saved_ret_ty = std::mem::replace(&mut self.ret_ty, "_".to_string()); self.retk_stack.push("(fun x => Ret x)".into());
                 let body = self.tr(&clo.body, "(fun x => Ret x)");
-                self.retk_stack.pop();
+                self.retk_stack.pop(); self.ret_ty = saved_ret_ty;
                 self.env.truncate(mark); self.muts.truncate(mmark);
                 let src = self.fresh("a");
                 self.tr(&m.receiver, &format!("(fun {} => (bind (opt_mapM (fun {} => {}) {}) {}))", src, p, body?, src, k))
@@ -740,11 +759,15 @@ impl Cx {
                 self.tuple_hint = vec![];
                 let (p, irr) = self.pat(&clo.inputs[0], elem_ty)?;
                 if !irr { return Err("refutable closure parameter".into()); }
-                let body = self.tr(&clo.body, "(fun x => Ret x)")?;
+                let saved_ret_ty2 = std::mem::replace(&mut self.ret_ty, "_".to_string());
+                let body = self.tr(&clo.body, "(fun x => Ret x)");
+                self.ret_ty = saved_ret_ty2;
+                let body = body?;
                 self.env.truncate(mark);
                 let src = self.fresh("a");
                 self.tr(&mp.receiver, &format!("(fun {} => (bind (mapM (fun {} => {}) (to_list {})) {}))", src, p, body, src, k))
             }
+            Expr::MethodCall(m) if m.method == "collect" && m.args.is_empty() => self.tr(&m.receiver, k),
             Expr::MethodCall(m) => {
                 let name = m.method.to_string();
                 let g = self.calls.get(&name).cloned().ok_or(format!("method `{}` with an effectful operand", name))?;
@@ -812,7 +835,8 @@ impl Cx {
             let term = if irrefutable && p.starts_with('(') { format!("(let '{} := {} in {})", p, sc, guarded) }
                        else if irrefutable { format!("(let {} := {} in {})", p, sc, guarded) }
                        else { format!("(match {} with | {} => {} | _ => ({} tt) end)", sc, p, guarded, fall) };
-            lets.push((fall, rest));
+            // (a thunk nobody calls - the arm is a catch-all - is not emitted: its type could not be inferred)
+            if term.contains(&format!("({} tt)", fall)) { lets.push((fall, rest)); }
             rest = format!("(fun _ : unit => {})", term);
         }
         let mut out = format!("({} tt)", rest);
